@@ -58,8 +58,15 @@ def step (st : St) (op : String) : St × Option String :=
   | "uploadf" :: rest =>
     -- judge: the same upload with ONE transiently failing store call either failed or produced the
     -- same entries as the fault-free upload (which the `upload` line compares with the model)
-    let got := (kvGet (kvs rest) "got").getD ""
-    (st, some (if got == "same" || got == "err" then "sound" else "UNSOUND"))
+    -- A failing existence check must change nothing (`C04_has_fault_same`); without skip-missing a
+    -- failing read must fail the upload (`C04_get_fault_fails`); a failing store write: error or same.
+    let kv := kvs rest
+    let got := (kvGet kv "got").getD ""
+    let fault := (kvGet kv "fault").getD ""
+    let ok := if fault == "src-has" then got == "same"
+      else if fault == "src-get" then got == "err"
+      else got == "same" || got == "err"
+    (st, some (if ok then "sound" else "UNSOUND"))
   | "upload" :: rest =>
     let kv := kvs rest
     let keysArg := (kvGet kv "keys").getD "*"
